@@ -768,8 +768,18 @@ def _arg_combine(data, axis, argfunc, keepdims=False):
     arg = data["arg"]
     if axis is None:
         local_args = argfunc(vals, axis=axis, keepdims=keepdims)
-        vals = vals.ravel()[local_args]
-        arg = arg.ravel()[local_args]
+        # Blocks are not visited in the order of the flattened array: among equal
+        # extreme values take the smallest flat index (NumPy: first occurrence).
+        flat_vals, flat_arg = vals.ravel(), arg.ravel()
+        best = flat_vals[np.ravel(local_args)[0]]
+        ties = flat_vals == best
+        if best != best:  # NaN
+            ties = flat_vals != flat_vals
+        local_args = np.full_like(
+            local_args, np.flatnonzero(ties)[np.argmin(flat_arg[ties])]
+        )
+        vals = flat_vals[local_args]
+        arg = flat_arg[local_args]
     else:
         local_args = argfunc(vals, axis=axis)
         inds = list(np.ogrid[tuple(map(slice, local_args.shape))])
